@@ -133,6 +133,17 @@ func runC15(c *fw.Ctx) {
 		run(store, []GOp{{Kind: "Compose", Bucket: "b", Name: "c1", Srcs: []GSrc{{Name: "s1"}, {Name: "s2"}}, Meta: dmeta},
 			{Kind: "Compose", Bucket: "b", Name: "c2", Srcs: []GSrc{{Name: "c1"}, {Name: "c1"}, {Name: "e"}}, Meta: gcs.ObjMeta{ContentType: "x/y"}},
 			{Kind: "Compose", Bucket: "b", Name: "c1", Srcs: []GSrc{{Name: "c1"}, {Name: "c2"}}, Meta: gcs.ObjMeta{}}}, "compose-of-composite")
+		// empty objects however they came to exist (media upload, resumable upload, compose of empty sources,
+		// copy of one of those) are existing sources like any other
+		er := GOp{Kind: "Upload", Proto: "resumable", Bucket: "b", Name: "er", Data: []byte{}, Meta: ct}
+		ec := GOp{Kind: "Compose", Bucket: "b", Name: "ec", Srcs: []GSrc{{Name: "e"}, {Name: "e"}}, Meta: gcs.ObjMeta{ContentType: "x/empty"}}
+		ecp := GOp{Kind: "Copy", Bucket: "b", Name: "ec", DstBucket: "b2", DstName: "ecp"}
+		for _, srcs := range [][]GSrc{{{Name: "ec"}}, {{Name: "er"}}, {{Name: "ec"}, {Name: "s1"}, {Name: "er"}}, {{Name: "s1"}, {Name: "ec"}}, {{Name: "er"}, {Name: "ec"}, {Name: "e"}}} {
+			run(store, []GOp{er, ec, {Kind: "Compose", Bucket: "b", Name: "z", Srcs: srcs, Meta: dmeta}}, "compose-from-empty")
+			run(store, []GOp{er, ec, {Kind: "Compose", Bucket: "b", Name: "ec", Srcs: srcs, Meta: dmeta}, patchOf("b", "ec")}, "compose-from-empty")
+		}
+		run(store, []GOp{ec, ecp, {Kind: "Copy", Bucket: "b2", Name: "ecp", DstBucket: "b", DstName: "back"}, {Kind: "Compose", Bucket: "b", Name: "z", Srcs: []GSrc{{Name: "back"}, {Name: "s2"}}, Meta: dmeta}}, "compose-from-empty")
+		run(store, []GOp{er, {Kind: "Copy", Bucket: "b", Name: "er", DstBucket: "b2", DstName: "x"}, {Kind: "Compose", Bucket: "b", Name: "er", Srcs: []GSrc{{Name: "er"}}, Meta: dmeta}, {Kind: "Compose", Bucket: "b", Name: "z", Srcs: []GSrc{{Name: "er"}, {Name: "er"}}, Meta: dmeta}}, "compose-from-empty")
 		// copy
 		srcPrep := map[string][]GOp{
 			"s1": nil, "s2": nil, "e": nil, "missing": nil,
@@ -181,6 +192,9 @@ func runC15(c *fw.Ctx) {
 		{Kind: "Upload", Proto: "media", Bucket: "b", Name: "s2", Data: []byte("2"), Meta: ct},
 		{Kind: "Delete", Bucket: "b", Name: "s1"},
 		patchOf("b", "d1"), patchOf("b", "c1"),
+		{Kind: "Compose", Bucket: "b", Name: "d4", Srcs: []GSrc{{Name: "e"}}, Meta: gcs.ObjMeta{ContentType: "x/d4"}},
+		{Kind: "Compose", Bucket: "b", Name: "d1", Srcs: []GSrc{{Name: "d4"}, {Name: "s1"}}, Meta: dmeta},
+		{Kind: "Copy", Bucket: "b", Name: "d4", DstBucket: "b", DstName: "e"},
 	}
 	depth := 3
 	if c.Thorough() {
